@@ -933,6 +933,12 @@ func (e *Engine) inlinable(fn *ssa.Function, depth int, visiting map[*ssa.Functi
 	}
 	n := 0
 	ok := true
+	// only code of the repository is executed symbolically; library functions are used through extern contracts
+	if fn.Pkg == nil || e.pkgs[fn.Pkg.Pkg.Name()] != fn.Pkg {
+		if fn.Parent() == nil || fn.Parent().Pkg == nil || e.pkgs[fn.Parent().Pkg.Pkg.Name()] != fn.Parent().Pkg {
+			ok = false
+		}
+	}
 	for _, b := range fn.Blocks {
 		for _, s := range b.Succs {
 			if s.Dominates(b) {
